@@ -573,3 +573,74 @@ def verdict_crate(name, cases, prelude="", toolchain=None, features=("full",), c
             unattributed.append(dg)
     r.unattributed = unattributed
     return per, r
+
+
+def run_case_crate(name, cases, prelude="", toolchain=None, features=("full",), crate_attrs="", max_rounds=6,
+                   timeout=2400, target_dir=None, deps_extra=""):
+    """cases: list of (key, module_body). Each body must define `pub fn run()` printing one line
+    `OBS <json>` (json must contain "k": <key>). Cases whose module fails to compile are recorded
+    (`compile_error`, with the diagnostics) and removed, then the crate is rebuilt, so the remaining
+    cases still run.  Returns (obs: key -> dict, failed: key -> [diag], BuildResult)."""
+    attrs = "#![allow(unused, dead_code, non_camel_case_types, non_snake_case, unreachable_patterns, unused_parens)]\n" + crate_attrs
+    live = list(cases)
+    failed = {}
+    last = None
+    for rnd in range(max_rounds):
+        lines = [attrs, prelude]
+        header = "\n".join(lines).count("\n") + 1
+        body, ranges = [], []
+        cur = header + 1
+        for i, (key, snip) in enumerate(live):
+            text = f"pub mod c{i} {{\n{snip}\n}}"
+            n = text.count("\n") + 1
+            ranges.append((cur, cur + n - 1, key))
+            body.append(text)
+            cur += n
+        calls = "\n".join(f"    c{i}::run();" for i in range(len(live)))
+        main = "\n".join(lines) + "\n" + "\n".join(body) + f"\nfn main() {{\n{calls}\n}}\n"
+        d = write_probe(name, main, features=features, deps_extra=deps_extra)
+        r = cargo_build(d, toolchain=toolchain, timeout=timeout, target_dir=target_dir)
+        last = r
+        if r.ok:
+            break
+        import bisect
+        starts = [a for a, _, _ in ranges]
+        bad = {}
+        unattributed = []
+        for dg in r.diags:
+            if dg["level"] != "error":
+                continue
+            hit = False
+            for ln in dg["all_lines"] or ([dg["line"]] if dg["line"] else []):
+                if ln is None:
+                    continue
+                j = bisect.bisect_right(starts, ln) - 1
+                if j >= 0 and ranges[j][0] <= ln <= ranges[j][1]:
+                    bad.setdefault(ranges[j][2], []).append({"message": dg["message"], "code": dg["code"]})
+                    hit = True
+                    break
+            if not hit:
+                unattributed.append(dg)
+        if not bad:
+            raise ToolError(f"probe crate {name} fails to build and no error can be attributed to a case: "
+                            + json.dumps([u['message'] for u in unattributed][:5]) + r.raw[-1500:])
+        failed.update(bad)
+        live = [(k, s) for k, s in live if k not in bad]
+    else:
+        raise ToolError(f"probe crate {name} still fails after {max_rounds} rounds")
+    obs = {}
+    if live:
+        rc, out, err = run_exe(last.exe, timeout=timeout)
+        for line in out.splitlines():
+            if line.startswith("OBS "):
+                try:
+                    o = json.loads(line[4:])
+                    obs[_k(o.get("k"))] = o
+                except Exception:
+                    pass
+        if rc != 0:
+            # a crash of the probe (panic outside catch_unwind): attribute to the first case without output
+            missing = [k for k, _ in live if _k(k) not in obs]
+            if missing:
+                obs[_k(missing[0])] = {"k": missing[0], "crashed": True, "stderr": err[-800:]}
+    return obs, failed, last
